@@ -357,6 +357,15 @@ example : Ssl2.chDecode [0, 2, 0, 3, 0, 0, 0, 1, 1, 2, 3, 9] =
 -- a cipher-spec length that is not a multiple of 3 is refused
 example : ∃ e, Ssl2.chDecode [0, 2, 0, 4, 0, 0, 0, 0, 1, 2, 3, 9] = .error e := ⟨.trailing, by decide⟩
 
+/-- the ticket-payload layout rule never picks a layout that cannot carry a field that is set:
+    flags or a server name force version 2, a certificate chain at least version 1, and the
+    smallest sufficient layout is chosen -/
+theorem ticket_layout_carries_fields (hasChain etm ems hasName : Bool) :
+    let v := Msgs.ticketVersion hasChain etm ems hasName
+    ((etm || ems || hasName) = true → v = 2) ∧ (hasChain = true → 1 ≤ v) ∧
+    ((etm || ems || hasName) = false → hasChain = false → v = 0) ∧ v ≤ 2 := by
+  cases hasChain <;> cases etm <;> cases ems <;> cases hasName <;> decide
+
 /-! ## every concrete tlslite format is an instance -/
 
 /-- the regenerated dispatch dictionaries of extensions.py name only classes the model has a
